@@ -107,149 +107,164 @@ theorem get?_aligned {β : Type} (keys : List String) (f : String → List β) (
       · exact absurd h.symm e
       · exact ih h
 
-theorem set_aligned {β : Type} (keys : List String) (hn : keys.Nodup) (f : String → List β) (k : String)
-    (v : List β) :
-    (aligned keys f).set k v = aligned keys (fun k' => if k' = k then v else f k') ∨ k ∉ keys := by
-  by_cases hk : k ∈ keys
-  · left
-    induction keys with
-    | nil => cases hk
-    | cons k' rest ih =>
-      simp only [List.nodup_cons] at hn
-      simp only [aligned, List.map_cons, Dict.set]
-      by_cases e : k' = k
-      · subst e
-        simp only [if_true, List.cons.injEq, true_and]
-        apply List.map_congr_left
-        intro k'' hk''
-        have : k'' ≠ k' := fun e' => hn.1 (e' ▸ hk'')
-        simp [this]
-      · simp only [e, if_false, List.cons.injEq, true_and]
-        rcases List.mem_cons.mp hk with h | h
-        · exact absurd h.symm e
-        · exact ih hn.2 h
-  · right; exact hk
+theorem get?_aligned_none {β : Type} (keys : List String) (f : String → List β) (k : String) (hk : k ∉ keys) :
+    (aligned keys f).get? k = none := by
+  induction keys with
+  | nil => rfl
+  | cons k' rest ih =>
+    simp only [List.mem_cons, not_or] at hk
+    have : ¬ k' = k := fun e => hk.1 e.symm
+    simp only [aligned, List.map_cons, Dict.get?, this, if_false]
+    exact ih hk.2
 
-theorem appendRow_aligned_aux {β : Type} (keys : List String) (hn : keys.Nodup) (col : String → List β)
-    (v : String → β) (idx : Nat) (hv : ∀ k ∈ keys, (col k)[idx]? = some (v k)) :
-    ∀ (ks : List String), ks.Nodup → (∀ k ∈ ks, k ∈ keys) → ∀ g : String → List β,
-      (aligned ks col).foldlM (appendCell idx) (aligned keys g)
-      = some (aligned keys fun k => if k ∈ ks then g k ++ [v k] else g k) := by
-  intro ks
-  induction ks with
-  | nil => intro _ _ g; simp [aligned]
-  | cons k rest ih =>
-    intro hks hsub g
-    simp only [List.nodup_cons] at hks
-    have hk := hsub k (List.mem_cons_self ..)
-    simp only [aligned, List.map_cons, List.foldlM_cons, appendCell]
-    have h1 := get?_aligned keys g k hk
-    simp only [aligned] at h1
-    simp only [h1, hv k hk]
-    rcases set_aligned keys hn g k (g k ++ [v k]) with h2 | h2
-    · simp only [aligned] at h2
-      simp only [Option.bind_eq_bind, Option.bind_some, h2]
-      have := ih hks.2 (fun k' hk' => hsub k' (List.mem_cons_of_mem _ hk'))
-        (fun k' => if k' = k then g k ++ [v k] else g k')
-      simp only [aligned] at this
-      rw [this]
-      congr 1
-      apply List.map_congr_left
-      intro k' _
-      by_cases e : k' = k
-      · subst e; simp [hks.1]
-      · simp [e]
-    · exact absurd hk h2
+/-- the table a reader returns for the iterations `l` of restart `r`:
+`data['it'] = l`, the columns `keys`, one entry `cell r k it` per iteration -/
+def ideal {β : Type} (keys : List String) (cell : Nat → String → Nat → β) (r : Nat) (l : List Nat) : Table β :=
+  ⟨l, aligned keys fun k => l.map (cell r k)⟩
 
-theorem appendRow_aligned {β : Type} (keys : List String) (hn : keys.Nodup) (f col : String → List β)
-    (its : List Nat) (v : String → β) (idx : Nat) (hv : ∀ k ∈ keys, (col k)[idx]? = some (v k)) :
-    appendRow (aligned keys f) ⟨its, aligned keys col⟩ idx = some (aligned keys fun k => f k ++ [v k]) := by
-  unfold appendRow
-  show (aligned keys col).foldlM _ (aligned keys f) = _
-  rw [appendRow_aligned_aux keys hn col v idx hv keys hn (fun _ h => h) f]
-  congr 1
-  apply List.map_congr_left
-  intro k hk
-  simp [hk]
+/-- one row appended to every column: the restart's value, `None` when the restart lacks the column -/
+theorem appendRow_ideal {β : Type} (K : List String) (f : String → List (Option β)) (keys : List String)
+    (cell : Nat → String → Nat → β) (r : Nat) (l : List Nat) (iit : Nat) (hm : iit ∈ l) :
+    appendRow (aligned K f) (ideal keys cell r l) (l.idxOf iit)
+      = some (aligned K fun k => f k ++ [if k ∈ keys then some (cell r k iit) else none]) := by
+  unfold appendRow aligned
+  rw [mapOpt_eq_map (appendCell (ideal keys cell r l) (l.idxOf iit))
+    (fun kl => (kl.1, kl.2 ++ [if kl.1 ∈ keys then some (cell r kl.1 iit) else none]))]
+  · simp [List.map_map, Function.comp_def]
+  · intro kl _
+    unfold appendCell ideal
+    by_cases hk : kl.1 ∈ keys
+    · simp only [get?_aligned keys _ kl.1 hk, List.getElem?_map, List.getElem?_idxOf hm, Option.map_some, hk, if_true]
+    · simp only [get?_aligned_none keys _ kl.1 hk, hk, if_false]
 
 /-! ### D. the flattening -/
 
-/-- the table an ideal reader returns for the iterations `l` of restart `r`:
-`data['it'] = l`, every column has one entry per iteration, `cell r k it` -/
-def ideal {β : Type} (keys : List String) (cell : Nat → String → Nat → β) (r : Nat) (l : List Nat) : Table β :=
-  ⟨l, aligned keys fun k => l.map (cell r k)⟩
+/-- the union of the columns of the restarts `rs`, in first-seen order -/
+def unionKeysOf (keysOf : Nat → List String) (rs : List Nat) : List String :=
+  rs.foldl (fun ks r => (keysOf r).foldl addKey ks) []
+
+theorem unionKeys_ideal {β : Type} (keysOf : Nat → List String) (cell : Nat → String → Nat → β)
+    (todo : List (Nat × List Nat)) :
+    unionKeys (todo.map fun rl => (rl.1, ideal (keysOf rl.1) cell rl.1 rl.2)) = unionKeysOf keysOf (todo.map Prod.fst) := by
+  unfold unionKeys unionKeysOf
+  rw [List.foldl_map, List.foldl_map]
+  congr 1
+  funext ks rl
+  simp [ideal, aligned, List.map_map, Function.comp_def]
 
 /-- the restarts of `todo` that hold `iit` -/
 def hits (todo : List (Nat × List Nat)) (iit : Nat) : List Nat :=
   todo.filterMap fun rl => if iit ∈ rl.2 then some rl.1 else none
 
-theorem inner_fold {β : Type} (keys : List String) (hn : keys.Nodup) (cell : Nat → String → Nat → β) (iit : Nat) :
-    ∀ (todo : List (Nat × List Nat)) (I : List Nat) (f : String → List β),
-      (todo.map fun rl => (rl.1, ideal keys cell rl.1 rl.2)).foldlM (rowStep iit) (I, aligned keys f)
+/-- the cell of the result: the restart's value, or `None` -/
+def cellOpt {β : Type} (keysOf : Nat → List String) (cell : Nat → String → Nat → β) (r : Nat) (k : String) (it : Nat) :
+    Option β :=
+  if k ∈ keysOf r then some (cell r k it) else none
+
+theorem inner_fold {β : Type} (K : List String) (keysOf : Nat → List String) (cell : Nat → String → Nat → β)
+    (iit : Nat) :
+    ∀ (todo : List (Nat × List Nat)) (I : List Nat) (f : String → List (Option β)),
+      (todo.map fun rl => (rl.1, ideal (keysOf rl.1) cell rl.1 rl.2)).foldlM (rowStep iit) (I, aligned K f)
       = some (I ++ (hits todo iit).map (fun _ => iit),
-              aligned keys fun k => f k ++ (hits todo iit).map fun r => cell r k iit) := by
+              aligned K fun k => f k ++ (hits todo iit).map fun r => cellOpt keysOf cell r k iit) := by
   intro todo
   induction todo with
   | nil => intro I f; simp [hits, aligned]
   | cons rl rest ih =>
     intro I f
-    simp only [List.map_cons, List.foldlM_cons, ideal, rowStep]
+    simp only [List.map_cons, List.foldlM_cons, rowStep]
     by_cases hm : iit ∈ rl.2
-    · simp only [hm, if_true, argminAbs_mem rl.2 iit hm, List.getElem?_idxOf hm]
-      have hv : ∀ k ∈ keys, (rl.2.map (cell rl.1 k))[rl.2.idxOf iit]? = some (cell rl.1 k iit) := by
-        intro k _
-        rw [List.getElem?_map, List.getElem?_idxOf hm]; rfl
-      rw [appendRow_aligned keys hn f (fun k => rl.2.map (cell rl.1 k)) rl.2 (fun k => cell rl.1 k iit)
-        (rl.2.idxOf iit) hv]
+    · have hm' : iit ∈ (ideal (keysOf rl.1) cell rl.1 rl.2).its := hm
+      simp only [hm', if_true]
+      have h1 : (ideal (keysOf rl.1) cell rl.1 rl.2).its = rl.2 := rfl
+      simp only [h1, argminAbs_mem rl.2 iit hm, List.getElem?_idxOf hm]
+      rw [appendRow_ideal K f (keysOf rl.1) cell rl.1 rl.2 iit hm]
       simp only [Option.bind_eq_bind, Option.bind_some]
-      have := ih (I ++ [iit]) (fun k => f k ++ [cell rl.1 k iit])
-      simp only [ideal] at this
-      rw [this]
-      simp [hits, hm, List.append_assoc]
-    · simp only [hm, if_false, Option.bind_eq_bind, Option.bind_some]
-      have := ih I f
-      simp only [ideal] at this
-      rw [this]
+      rw [ih (I ++ [iit]) (fun k => f k ++ [if k ∈ keysOf rl.1 then some (cell rl.1 k iit) else none])]
+      simp [hits, hm, cellOpt, List.append_assoc]
+    · have hm' : ¬ iit ∈ (ideal (keysOf rl.1) cell rl.1 rl.2).its := hm
+      simp only [hm', if_false, Option.bind_eq_bind, Option.bind_some]
+      rw [ih I f]
       simp [hits, hm]
 
 /-- rows produced by the two loops -/
 def rowsLoop (todo : List (Nat × List Nat)) (oldIt : List Nat) : List (Nat × Nat) :=
   oldIt.flatMap fun iit => (hits todo iit).map fun r => (iit, r)
 
-theorem outer_fold {β : Type} (keys : List String) (hn : keys.Nodup) (cell : Nat → String → Nat → β)
+theorem outer_fold {β : Type} (K : List String) (keysOf : Nat → List String) (cell : Nat → String → Nat → β)
     (todo : List (Nat × List Nat)) :
-    ∀ (oldIt : List Nat) (I : List Nat) (f : String → List β),
-      oldIt.foldlM (fun (acc : List Nat × Dict String (List β)) iit =>
-        (todo.map fun rl => (rl.1, ideal keys cell rl.1 rl.2)).foldlM (rowStep iit) acc) (I, aligned keys f)
+    ∀ (oldIt : List Nat) (I : List Nat) (f : String → List (Option β)),
+      oldIt.foldlM (fun (acc : List Nat × Dict String (List (Option β))) iit =>
+        (todo.map fun rl => (rl.1, ideal (keysOf rl.1) cell rl.1 rl.2)).foldlM (rowStep iit) acc) (I, aligned K f)
       = some (I ++ (rowsLoop todo oldIt).map Prod.fst,
-              aligned keys fun k => f k ++ (rowsLoop todo oldIt).map fun p => cell p.2 k p.1) := by
+              aligned K fun k => f k ++ (rowsLoop todo oldIt).map fun p => cellOpt keysOf cell p.2 k p.1) := by
   intro oldIt
   induction oldIt with
   | nil => intro I f; simp [rowsLoop, aligned]
   | cons iit rest ih =>
     intro I f
     simp only [List.foldlM_cons]
-    rw [inner_fold keys hn cell iit todo I f]
+    rw [inner_fold K keysOf cell iit todo I f]
     simp only [Option.bind_eq_bind, Option.bind_some]
     rw [ih]
     simp [rowsLoop, List.append_assoc, List.map_flatMap, Function.comp_def]
 
-theorem flattenTables_ideal {β : Type} (keys : List String) (hn : keys.Nodup) (cell : Nat → String → Nat → β)
-    (todo : List (Nat × List Nat)) (hne : todo ≠ []) (oldIt : List Nat) :
-    flattenTables (todo.map fun rl => (rl.1, ideal keys cell rl.1 rl.2)) oldIt
+theorem flattenTables_ideal {β : Type} (keysOf : Nat → List String) (cell : Nat → String → Nat → β)
+    (todo : List (Nat × List Nat)) (oldIt : List Nat) :
+    flattenTables (todo.map fun rl => (rl.1, ideal (keysOf rl.1) cell rl.1 rl.2)) oldIt
       = some ((rowsLoop todo oldIt).map Prod.fst,
-              aligned keys fun k => (rowsLoop todo oldIt).map fun p => cell p.2 k p.1) := by
-  cases todo with
-  | nil => exact absurd rfl hne
-  | cons rl rest =>
-    unfold flattenTables
-    simp only [List.map_cons]
-    have h0 : ((ideal keys cell rl.1 rl.2).cols.map fun kc => (kc.1, ([] : List β))) = aligned keys fun _ => [] := by
-      simp [ideal, aligned, List.map_map, Function.comp_def]
-    rw [h0]
-    have := outer_fold keys hn cell (rl :: rest) oldIt [] (fun _ => [])
-    simp only [List.map_cons, List.nil_append] at this
-    exact this
+              aligned (unionKeysOf keysOf (todo.map Prod.fst)) fun k =>
+                (rowsLoop todo oldIt).map fun p => cellOpt keysOf cell p.2 k p.1) := by
+  unfold flattenTables
+  rw [unionKeys_ideal]
+  have := outer_fold (unionKeysOf keysOf (todo.map Prod.fst)) keysOf cell todo oldIt [] (fun _ => [])
+  simp only [List.nil_append] at this
+  exact this
+
+/-! ### union of keys -/
+
+theorem foldl_addKey_sub (K pre : List String) (h : ∀ k ∈ K, k ∈ pre) : K.foldl addKey pre = pre := by
+  induction K with
+  | nil => rfl
+  | cons k rest ih =>
+    have hk := h k (List.mem_cons_self ..)
+    have : addKey pre k = pre := by simp [addKey, hk]
+    simp only [List.foldl_cons, this]
+    exact ih (fun k' hk' => h k' (List.mem_cons_of_mem _ hk'))
+
+theorem foldl_addKey_fresh (K : List String) (hn : K.Nodup) :
+    ∀ pre : List String, (∀ k ∈ K, k ∉ pre) → K.foldl addKey pre = pre ++ K := by
+  induction K with
+  | nil => intro pre _; simp
+  | cons k rest ih =>
+    intro pre h
+    simp only [List.nodup_cons] at hn
+    have hk := h k (List.mem_cons_self ..)
+    have : addKey pre k = pre ++ [k] := by simp [addKey, hk]
+    simp only [List.foldl_cons, this]
+    rw [ih hn.2 (pre ++ [k])]
+    · simp
+    · intro k' hk' hm
+      rcases List.mem_append.mp hm with hm | hm
+      · exact h k' (List.mem_cons_of_mem _ hk') hm
+      · simp only [List.mem_singleton] at hm
+        exact hn.1 (hm ▸ hk')
+
+/-- every restart delivers the same columns `K`: the union is `K` (or nothing when no restart is read) -/
+theorem unionKeysOf_const (K : List String) (hn : K.Nodup) (rs : List Nat) :
+    unionKeysOf (fun _ => K) rs = if rs = [] then [] else K := by
+  unfold unionKeysOf
+  cases rs with
+  | nil => rfl
+  | cons r rest =>
+    simp only [List.foldl_cons, reduceCtorEq, if_false]
+    rw [foldl_addKey_fresh K hn [] (by simp), List.nil_append]
+    induction rest with
+    | nil => rfl
+    | cons r' rest' ih =>
+      simp only [List.foldl_cons]
+      rw [foldl_addKey_sub K K (fun _ h => h)]
+      exact ih
 
 /-! ### E. `readETData` around an ideal reader -/
 
@@ -356,28 +371,71 @@ theorem rowsLoop_itToDo (usechk : Bool) (cats : List Cat) (hnd : (cats.map (·.n
   rw [hits_filter, hits_itToDo usechk cats hnd s it hit]
   cases pick usechk cats it <;> simp
 
-theorem mapOpt_reader {β : Type} (keys : List String) (cell : Nat → String → Nat → β)
+theorem mapOpt_reader {β : Type} (keysOf : Nat → List String) (cell : Nat → String → Nat → β)
     (reader : Nat → List Nat → Option (Table β)) (todo : List (Nat × List Nat))
-    (hr : ∀ rl ∈ todo, reader rl.1 rl.2 = some (ideal keys cell rl.1 rl.2)) :
+    (hr : ∀ rl ∈ todo, reader rl.1 rl.2 = some (ideal (keysOf rl.1) cell rl.1 rl.2)) :
     mapOpt (fun rl => (reader rl.1 rl.2).map fun T => (rl.1, T)) todo
-      = some (todo.map fun rl => (rl.1, ideal keys cell rl.1 rl.2)) :=
+      = some (todo.map fun rl => (rl.1, ideal (keysOf rl.1) cell rl.1 rl.2)) :=
   mapOpt_eq_map _ _ _ (fun rl h => by simp [hr rl h])
 
+/-- the restarts that are actually read (non-empty 'it to do'), in catalogue order -/
+def activeRestarts (usechk : Bool) (cats : List Cat) (its : List Nat) : List Nat :=
+  ((Restarts.itToDo usechk cats (sortedSet its)).filter fun rl => !rl.2.isEmpty).map Prod.fst
+
+theorem mem_activeRestarts (usechk : Bool) (cats : List Cat) (its : List Nat) (r : Nat) :
+    r ∈ activeRestarts usechk cats its ↔ ∃ it, (it, r) ∈ rowsOf usechk cats its := by
+  unfold activeRestarts rowsOf
+  constructor
+  · intro h
+    obtain ⟨rl, hrl, rfl⟩ := List.mem_map.mp h
+    obtain ⟨hrl1, hrl2⟩ := List.mem_filter.mp hrl
+    obtain ⟨c, _, rfl⟩ := List.mem_map.mp hrl1
+    simp only at hrl2
+    cases hl : sortNat (List.filter (fun iit => pick usechk cats iit == some c.num) (sortedSet its).reverse) with
+    | nil => rw [hl] at hrl2; simp at hrl2
+    | cons it rest =>
+      have hit : it ∈ sortNat (List.filter (fun iit => pick usechk cats iit == some c.num) (sortedSet its).reverse) := by
+        rw [hl]; exact List.mem_cons_self ..
+      rw [mem_sortNat', List.mem_filter, List.mem_reverse] at hit
+      refine ⟨it, List.mem_filterMap.mpr ⟨it, hit.1, ?_⟩⟩
+      have := hit.2
+      simp only [beq_iff_eq] at this
+      simp [this]
+  · rintro ⟨it, h⟩
+    obtain ⟨it', hit', e⟩ := List.mem_filterMap.mp h
+    cases hp : pick usechk cats it' with
+    | none => simp [hp] at e
+    | some r' =>
+      simp only [hp, Option.map_some, Option.some.injEq, Prod.mk.injEq] at e
+      obtain ⟨rfl, rfl⟩ := e
+      obtain ⟨pre, c, post, hsplit, hcr, _⟩ := pick_latest_lemma usechk cats it' r' hp
+      have hc : c ∈ cats := by rw [hsplit]; simp
+      refine List.mem_map.mpr ⟨(c.num, sortNat (List.filter (fun iit => pick usechk cats iit == some c.num)
+        (sortedSet its).reverse)), ?_, hcr⟩
+      refine List.mem_filter.mpr ⟨List.mem_map.mpr ⟨c, hc, rfl⟩, ?_⟩
+      have hmem : it' ∈ sortNat (List.filter (fun iit => pick usechk cats iit == some c.num) (sortedSet its).reverse) := by
+        rw [mem_sortNat', List.mem_filter, List.mem_reverse]
+        exact ⟨hit', by simp [hp, hcr]⟩
+      cases hl : sortNat (List.filter (fun iit => pick usechk cats iit == some c.num) (sortedSet its).reverse) with
+      | nil => rw [hl] at hmem; cases hmem
+      | cons a b => simp
+
 /-- `restart = -1`: one row per requested iteration that some restart holds, in
-increasing order, every column (the `t` column and every variable) taken from
-the chosen restart at that iteration -/
+increasing order; the columns are the union of the columns of the restarts that
+are read; every column has exactly one entry per row: the chosen restart's value
+at that iteration, or `None` when that restart does not have the column -/
 theorem readETData_auto {β : Type} (usechk : Bool) (cats : List Cat) (hnd : (cats.map (·.num)).Nodup)
-    (keys : List String) (hk : keys.Nodup) (cell : Nat → String → Nat → β)
+    (keysOf : Nat → List String) (cell : Nat → String → Nat → β)
     (reader : Nat → List Nat → Option (Table β))
     (hr : ∀ r l, l ≠ [] → l.Pairwise (· < ·) → (∀ it ∈ l, pick usechk cats it = some r) →
-      reader r l = some (ideal keys cell r l))
+      reader r l = some (ideal (keysOf r) cell r l))
     (its : List Nat) :
     readETData usechk cats none its reader
-      = if rowsOf usechk cats its = [] then none
-        else some ((rowsOf usechk cats its).map Prod.fst,
-                   aligned keys fun k => (rowsOf usechk cats its).map fun p => cell p.2 k p.1) := by
+      = some ((rowsOf usechk cats its).map Prod.fst,
+              aligned (unionKeysOf keysOf (activeRestarts usechk cats its)) fun k =>
+                (rowsOf usechk cats its).map fun p => cellOpt keysOf cell p.2 k p.1) := by
   unfold readETData
-  have hmo := mapOpt_reader keys cell reader
+  have hmo := mapOpt_reader keysOf cell reader
     ((Restarts.itToDo usechk cats (sortedSet its)).filter fun rl => !rl.2.isEmpty) (by
       intro rl hrl
       obtain ⟨hrl1, hrl2⟩ := List.mem_filter.mp hrl
@@ -390,34 +448,8 @@ theorem readETData_auto {β : Type} (usechk : Bool) (cats : List Cat) (hnd : (ca
         rw [mem_sortNat', List.mem_filter] at hit
         simpa using hit.2)
   simp only [hmo]
-  have hrows := rowsLoop_itToDo usechk cats hnd (sortedSet its)
-  by_cases he : (Restarts.itToDo usechk cats (sortedSet its)).filter (fun rl => !rl.2.isEmpty) = []
-  · have : rowsOf usechk cats its = [] := by
-      unfold rowsOf; rw [← hrows, he]; simp [rowsLoop, hits]
-    simp [he, this, flattenTables]
-  · rw [flattenTables_ideal keys hk cell _ he, hrows]
-    have : rowsOf usechk cats its ≠ [] := by
-      unfold rowsOf
-      intro e
-      apply he
-      rw [List.filter_eq_nil_iff]
-      intro rl hrl
-      obtain ⟨c, hc, rfl⟩ := List.mem_map.mp hrl
-      have hnil : sortNat (List.filter (fun iit => pick usechk cats iit == some c.num) (sortedSet its).reverse) = [] := by
-        rw [List.eq_nil_iff_forall_not_mem]
-        intro it hit
-        rw [mem_sortNat', List.mem_filter, List.mem_reverse] at hit
-        have : (it, c.num) ∈ (sortedSet its).filterMap fun it => (pick usechk cats it).map fun r => (it, r) := by
-          rw [List.mem_filterMap]
-          refine ⟨it, hit.1, ?_⟩
-          have := hit.2
-          simp only [beq_iff_eq] at this
-          simp [this]
-        rw [e] at this
-        cases this
-      rw [hnil]; simp
-    simp only [rowsOf] at this ⊢
-    simp [this]
+  rw [flattenTables_ideal keysOf cell, rowsLoop_itToDo usechk cats hnd (sortedSet its)]
+  rfl
 
 theorem find_num {cats : List Cat} (hnd : (cats.map (·.num)).Nodup) {c : Cat} (hc : c ∈ cats) :
     cats.find? (fun d => d.num == c.num) = some c := by
@@ -448,7 +480,7 @@ theorem rowsLoop_single (r : Nat) (p : Nat → Bool) (s : List Nat) :
   intro x hx
   cases hp : p x <;> simp [List.mem_filter, hx, hp]
 
-/-- explicit `restart = r`: only that restart is consulted -/
+/-- explicit `restart = r`: only that restart is consulted (nothing to read: the empty dictionary) -/
 theorem readETData_explicit {β : Type} (usechk : Bool) (cats : List Cat) (hnd : (cats.map (·.num)).Nodup)
     (c : Cat) (hc : c ∈ cats)
     (keys : List String) (hk : keys.Nodup) (cell : Nat → String → Nat → β)
@@ -457,16 +489,19 @@ theorem readETData_explicit {β : Type} (usechk : Bool) (cats : List Cat) (hnd :
       reader c.num l = some (ideal keys cell c.num l))
     (its : List Nat) :
     readETData usechk cats (some c.num) its reader
-      = if (sortedSet its).filter (fun it => inRestart usechk c it) = [] then none
+      = if (sortedSet its).filter (fun it => inRestart usechk c it) = [] then some ([], [])
         else some ((sortedSet its).filter (fun it => inRestart usechk c it),
-                   aligned keys fun k => ((sortedSet its).filter fun it => inRestart usechk c it).map (cell c.num k)) := by
+                   aligned keys fun k =>
+                     ((sortedSet its).filter fun it => inRestart usechk c it).map fun it => some (cell c.num k it)) := by
   unfold readETData
   simp only [find_num hnd hc, itToDoExplicit]
   have hstrict := sortedSet_strict its
   generalize sortedSet its = s at hstrict
   by_cases he : s.filter (fun it => inRestart usechk c it) = []
-  · simp [he, flattenTables, mapOpt]
-  · have hmo := mapOpt_reader keys cell reader [(c.num, s.filter fun it => inRestart usechk c it)] (by
+  · have h0 := flattenTables_ideal (β := β) (fun _ => keys) cell [] s
+    simp only [List.map_nil] at h0
+    simp [he, mapOpt, h0, rowsLoop, hits, unionKeysOf, aligned]
+  · have hmo := mapOpt_reader (fun _ => keys) cell reader [(c.num, s.filter fun it => inRestart usechk c it)] (by
       intro rl hrl
       rw [List.mem_singleton] at hrl
       subst hrl
@@ -476,8 +511,15 @@ theorem readETData_explicit {β : Type} (usechk : Bool) (cats : List Cat) (hnd :
       simp [List.filter_cons, List.isEmpty_iff, he]
     rw [hf, hmo]
     simp only
-    rw [flattenTables_ideal keys hk cell _ (by simp)]
+    rw [flattenTables_ideal (fun _ => keys) cell]
     have hrows := rowsLoop_single c.num (fun it => inRestart usechk c it) s
-    simp [he, hrows, List.map_map, Function.comp_def]
+    have hu := unionKeysOf_const keys hk [c.num]
+    simp only [List.map_cons, List.map_nil, reduceCtorEq, if_false] at hu ⊢
+    rw [hu, hrows]
+    simp only [he, if_false, List.map_map, Function.comp_def, Option.some.injEq, Prod.mk.injEq, List.map_id', true_and]
+    unfold aligned
+    apply List.map_congr_left
+    intro k hkm
+    simp [cellOpt, hkm]
 
 end AurelVerif.RestartsLemmas
